@@ -103,9 +103,36 @@ def cases(ctx):
         twin_pre = pre.replace("zz_tr(1)\n", "{\n}\n").replace("zz_tr(2)\n", "{\n.db 2\n{\n.db 1\n{\n}\n}\n}\n" if "v - 1" in pre else "{\n}\n")
         out.append({"kind": "empty-expansion", "rom": "low", "spec": {"t": "twin", "labels": True},
                     "src": f"*={org:#08x}\n{pre}{rest}", "twin_src": f"*={org:#08x}\n{twin_pre}{rest}"})
+    # arguments that cannot be evaluated at expansion time (forward labels, `=` symbols) and mention call-site names equal
+    # to the macro's own (earlier or later) parameters: each argument is a call-site expression
+    for decl, call in (("lo, hi", "hi, lo"), ("first, second, third", "second, third, first"), ("a, b", "b + 1, a + 1"),
+                       ("a, b", "b, b"), ("x, y, z", "z, x, y")):
+        ps = [q.strip() for q in decl.split(",")]
+        args = [q.strip() for q in call.split(",")]
+        defs_sym = "".join(f"{q} = {0x20 + i}\n" for i, q in enumerate(ps))
+        defs_lab = "".join(f"{q}:\n.db {i}\n" for i, q in enumerate(ps))
+        body = "".join(f".dw {q}\n" for q in ps)
+        # (`=` symbols defined BEHIND the application are not yet known when its arguments are resolved: refused, not planted)
+        for how, defs, before in (("labels-after", defs_lab, False), ("symbols-before", defs_sym, True), ("labels-before", defs_lab, True)):
+            app = f"zz_p({call})\n"
+            src = f"*={org:#08x}\n.macro zz_p({decl}) {{\n{body}}}\n" + ((defs + app) if before else (app + defs))
+            twin_body = "".join(f".dw {a}\n" for a in args)
+            twin = f"*={org:#08x}\n" + ((defs + twin_body) if before else (twin_body + defs))
+            out.append({"kind": f"deferred-arg-names:{how}", "rom": "low", "src": src, "twin_src": twin, "spec": {"t": "twin", "labels": True}})
+    # an unsized instruction in the body takes its width from THIS application's argument
+    for a1, a2 in (("0x12, 0x10", "0x1234, 0x2100"), ("0x1234, 0x2100", "0x12, 0x10"), ("0x1234, 0x7e2000", "0x01, 0x02")):
+        def body_of(args):
+            v, d = [q.strip() for q in args.split(",")]
+            return f"{{\nlda #{v}\nsta {d}\n}}\n"
+        out.append({"kind": "width-per-application", "rom": "low", "spec": {"t": "twin", "labels": True},
+                    "src": f"*={org:#08x}\n.macro zz_st(v, d) {{\nlda #v\nsta d\n}}\nzz_st({a1})\nzz_st({a2})\nzz_e:\n.dl zz_e\n",
+                    "twin_src": f"*={org:#08x}\n" + body_of(a1) + body_of(a2) + "zz_e:\n.dl zz_e\n"})
     # failures
     for src in (f"*={org:#08x}\nnope(1)\n", f"*={org:#08x}\n.macro m(a, b) {{\n.db a\n}}\nm(1)\n",
                 f"*={org:#08x}\nm(1)\n.macro m(a) {{\n.db a\n}}\n", f"*={org:#08x}\n.macro m(a, b, c) {{\nnop\n}}\nm()\n",
+                # nothing of an application is reachable from outside under the macro's name
+                f"*={org:#08x}\n.macro zz_mn(a) {{\nzz_in:\n.db a\n}}\nzz_mn(3)\n.dl zz_mn.zz_in\n",
+                f"*={org:#08x}\n.macro zz_mn(a) {{\nzz_in:\n.db a\n}}\nzz_mn(3)\n.db zz_mn.a\n",
                 ):
         out.append({"kind": "must-fail", "rom": "low", "src": src, "spec": {"t": "reject"}})
     # a macro defined by ANOTHER program assembled earlier in the same process is still undefined here (and a
@@ -117,7 +144,7 @@ def cases(ctx):
     out.append({"kind": "own-definition:after-other-program", "rom": "low", "earlier_src": earlier,
                 "src": f"*={org:#08x}\n.macro r(n) {{\n.db n\n}}\nr(7)\n", "twin_src": f"*={org:#08x}\n.db 7\n",
                 "spec": {"t": "twin", "labels": False}})
-    return core.mark_must_assemble(out, {'recursive', 'capture', 'code-arg', 'empty-expansion', 'defined-in', 'own-definition', 'local-labels'})
+    return core.mark_must_assemble(out, {'deferred-arg-names', 'width-per-application', 'recursive', 'capture', 'code-arg', 'empty-expansion', 'defined-in', 'own-definition', 'local-labels'})
 
 
 def instantiate(gen_q):
